@@ -96,9 +96,13 @@ def invoke(I, fi, args, kwargs, closure_env, cls_ctx, closure):
     """call of an in-repo function: against its contract when it has one, else by executing its real body (inlined)"""
     ctx = I.ctx
     con = I.E.contracts.get(fi.key)
+    if con is not None and con.transparent:
+        con = None
     if con is not None:
         if fi.is_async:
-            return Coro(lambda: apply_contract(I, con, args, kwargs, fi=fi), fi.key)
+            co = Coro(lambda: apply_contract(I, con, args, kwargs, fi=fi), fi.key)
+            co.origin = (fi, list(args))
+            return co
         return apply_contract(I, con, args, kwargs, fi=fi)
 
     def run():
@@ -108,7 +112,9 @@ def invoke(I, fi, args, kwargs, closure_env, cls_ctx, closure):
         return run_body(I, fi, bound, closure_env, cls_ctx)
 
     if fi.is_async:
-        return Coro(run, fi.key)
+        co = Coro(run, fi.key)
+        co.origin = (fi, list(args))
+        return co
     return run()
 
 
@@ -340,6 +346,8 @@ def apply_contract(I, con, args, kwargs, fi=None, callee_label=None):
     tr_old_len = ctx.trlen
     if con.emits is not None:
         con.emits(spec, ctx, **views)
+    if con.delegate is not None:
+        return con.delegate(I, **typed_bound)
     apply_writes(I, con, spec, views)
     if con.has_events and con.emits is None:
         # the callee may append events: havoc the trace, keeping the prefix
